@@ -11,6 +11,7 @@
 import Distill.Props.RenderProps
 import Distill.Proofs.Convert
 import Distill.Proofs.Compose
+import Distill.Proofs.Preorder
 import Distill.Props.FiltersProps
 namespace Distill.C02
 open Distill
@@ -56,6 +57,14 @@ theorem rendered_excerpt (cfg : CCfg) (A : CAtoms) (anc : List String) (hp : Boo
     ((((textsOf (buildDoc (convert cfg A anc hp n))).filter keep).map
         (fun t => n.textIds.filter (fun i => t.win.contains i))).flatten).Sublist n.textIds :=
   rendered_concat_excerpt cfg A anc hp n keep hn (textIds_sublist_brTextIds n)
+
+/-- the same without hypothesis, for every tree numbered in document order (as the harness and
+the correspondence number them) -/
+theorem rendered_excerpt_preorder (cfg : CCfg) (A : CAtoms) (anc : List String) (hp : Bool) (n : Node) (k : Nat)
+    (keep : TextEl → Bool) :
+    ((((textsOf (buildDoc (convert cfg A anc hp (relabel k n)))).filter keep).map
+        (fun t => (relabel k n).textIds.filter (fun i => t.win.contains i))).flatten).Sublist (relabel k n).textIds :=
+  rendered_excerpt cfg A anc hp (relabel k n) keep (relabel_brTextIds_nodup k n)
 
 /-! non-vacuity: a page with a paragraph, a hidden div and a list; windows [1,2,4] and [9] -/
 def A0 : CAtoms :=
